@@ -10,7 +10,11 @@ import Gama.Proto
 import Gama.Model.Neu
 import Gama.Model.G3Book
 import Gama.Model.AdjXml
-open Gama Gama.Proto Gama.Neu Gama.G3Book
+import Gama.Model.G3Lin
+import Gama.Gen.G3Linearization
+import Gama.Model.G3Parser
+import Gama.Gen.G3ParserSites
+open Gama Gama.Proto Gama.Neu Gama.G3Book Gama.G3Lin
 
 structure PtIn where
   name : String
@@ -22,26 +26,18 @@ structure PtIn where
   h : Float
   geoid : Float
   s : PtS
+  dB : Float
+  dL : Float
 
-inductive ObIn where
-  | vector (f t : String) (dx dy dz fdh tdh : Float)
-  | xyz (p : String) (x y z : Float)
-  | distance (f t : String) (v fdh tdh : Float)
-  | height (p : String) (v : Float)
-  | hdiff (f t : String) (v : Float)
-  | angle (f l r : String)
-  | zenith (f t : String)
-  | azimuth (f t : String)
+/-- an observation as the real parser stored it: the bookkeeping view (`Obs String`), the name of
+    its generated linearisation, the point name of every role, and its own data -/
+structure ObIn where
+  obs : Obs String
+  kind : String
+  names : List (Role × String)
+  o : GObs Float
 
-def ObIn.toObs : ObIn → Obs String
-  | .vector f t .. => .vector f t
-  | .xyz p .. => .xyz p
-  | .distance f t .. => .distance f t
-  | .height p _ => .height p
-  | .hdiff f t _ => .hdiff f t
-  | .angle f l r => .angle f l r
-  | .zenith f t => .zenith f t
-  | .azimuth f t => .azimuth f t
+def ObIn.toObs (o : ObIn) : Obs String := o.obs
 
 structure ClIn where
   nobs : Nat
@@ -56,6 +52,8 @@ structure St where
   cls : List ClIn := []
   obs : List ObIn := []
   evs : List (AdjXml.Ev String) := []
+  gpts : List (Role × GPt Float) := []
+  precs : List (G3Parser.Rec Unit Float) := []
 
 def pstate? : String → Option PState
   | "0" => some .unused | "1" => some .fixed | "2" => some .free | "3" => some .constr | _ => none
@@ -65,26 +63,36 @@ def bool? : String → Option Bool
 def floats? (ts : List String) : Option (List Float) := ts.mapM float?
 
 def parsePt : List String → Option PtIn
-  | [name, b, l, x, y, z, h, g, hx, hb, hg, sn, se, su] => do
-    let [b, l, x, y, z, h, g] ← floats? [b, l, x, y, z, h, g] | none
-    pure ⟨name, b, l, x, y, z, h, g, ⟨← bool? hx, ← bool? hb, ← bool? hg, ← pstate? sn, ← pstate? se, ← pstate? su⟩⟩
+  | [name, b, l, x, y, z, h, g, hx, hb, hg, sn, se, su, db, dl] => do
+    let [b, l, x, y, z, h, g, db, dl] ← floats? [b, l, x, y, z, h, g, db, dl] | none
+    pure ⟨name, b, l, x, y, z, h, g, ⟨← bool? hx, ← bool? hb, ← bool? hg, ← pstate? sn, ← pstate? se, ← pstate? su⟩, db, dl⟩
   | _ => none
+
+def gobs (v1 v2 v3 fdh tdh ldh rdh : Float) : GObs Float := ⟨v1, v2, v3, fdh, tdh, ldh, rdh⟩
 
 def parseOb : List String → Option ObIn
   | ["vector", f, t, a, b, c, d, e] => do
     let [a, b, c, d, e] ← floats? [a, b, c, d, e] | none
-    pure (.vector f t a b c d e)
+    pure ⟨.vector f t, "vector", [(.frm, f), (.to, t)], gobs a b c d e 0 0⟩
   | ["xyz", p, a, b, c] => do
     let [a, b, c] ← floats? [a, b, c] | none
-    pure (.xyz p a b c)
+    pure ⟨.xyz p, "xyz", [(.pt, p)], gobs a b c 0 0 0 0⟩
   | ["distance", f, t, a, b, c] => do
     let [a, b, c] ← floats? [a, b, c] | none
-    pure (.distance f t a b c)
-  | ["height", p, a] => do pure (.height p (← float? a))
-  | ["hdiff", f, t, a] => do pure (.hdiff f t (← float? a))
-  | ["angle", f, l, r, _] => some (.angle f l r)
-  | ["zenith", f, t, _] => some (.zenith f t)
-  | ["azimuth", f, t, _] => some (.azimuth f t)
+    pure ⟨.distance f t, "distance", [(.frm, f), (.to, t)], gobs a 0 0 b c 0 0⟩
+  | ["height", p, a] => do pure ⟨.height p, "height", [(.pt, p)], gobs (← float? a) 0 0 0 0 0 0⟩
+  | ["hdiff", f, t, a, b, c] => do
+    let [a, b, c] ← floats? [a, b, c] | none
+    pure ⟨.hdiff f t, "hdiff", [(.frm, f), (.to, t)], gobs a 0 0 b c 0 0⟩
+  | ["angle", f, l, r, a, b, c, d] => do
+    let [a, b, c, d] ← floats? [a, b, c, d] | none
+    pure ⟨.angle f l r, "angle", [(.frm, f), (.left, l), (.right, r)], gobs a 0 0 b 0 c d⟩
+  | ["zenith", f, t, a, b, c] => do
+    let [a, b, c] ← floats? [a, b, c] | none
+    pure ⟨.zenith f t, "zenith", [(.frm, f), (.to, t)], gobs a 0 0 b c 0 0⟩
+  | ["azimuth", f, t, a, b, c] => do
+    let [a, b, c] ← floats? [a, b, c] | none
+    pure ⟨.azimuth f t, "azimuth", [(.frm, f), (.to, t)], gobs a 0 0 b c 0 0⟩
   | _ => none
 
 def tag? : String → AdjXml.Tag
@@ -107,22 +115,26 @@ def points (s : St) : Points String := fun n => (s.pts.find? (·.name == n)).map
 def showRow (k : Nat) (r : Row Float) : String :=
   s!"res row {k} {r.length}" ++ String.join (r.map fun (c, i) => s!" {i} {showFloat c}")
 
-/-- the model point the linearisation reads -/
-def mkPt (s : St) (bk : Book String) (n : String) : Option (Pt Float) := do
+def zeroRot : Rot Float := ⟨0, 0, 0, 0, 0, 0, 0, 0, 0⟩
+def zeroPt : GPt Float :=
+  ⟨0, 0, 0, 0, 0, 0, 0, 0, 0, 0, 0, 0, zeroRot, .unused, .unused, .unused, 0, 0, 0⟩
+
+/-- the model point the linearisation reads (corrections are zero before the adjustment:
+    `X() = X.init_value()`); `ind` is the member set by `update_index` -/
+def mkPt (s : St) (bk : Book String) (n : String) : Option (GPt Float) := do
   let p ← s.pts.find? (·.name == n)
   let ps := p.s.normalise
-  let ix := fun c => bk.idx.index (isFreePar (points s)) (n, c)
-  pure { X := p.x, Y := p.y, Z := p.z, R := transformationMatrix p.b p.l, H := p.h, geoid := p.geoid,
-         freeH := ps.freeH, freeU := ps.freeU, iN := ix .N, iE := ix .E, iU := ix .U }
+  pure { X := p.x, Y := p.y, Z := p.z, X0 := p.x, Y0 := p.y, Z0 := p.z, B := p.b, L := p.l, H := p.h,
+         geoid := p.geoid, dB := p.dB, dL := p.dL, R := transformationMatrix p.b p.l,
+         sN := ps.sN, sE := ps.sE, sU := ps.sU,
+         iN := bk.idx.ind (n, .N), iE := bk.idx.ind (n, .E), iU := bk.idx.ind (n, .U) }
 
-/-- `none` = observation type whose coefficients are not modelled (angle, zenith, azimuth) -/
-def linOne (s : St) (bk : Book String) : ObIn → Option (LinOut Float)
-  | .vector f t dx dy dz fdh tdh => do pure (linVector (← mkPt s bk f) (← mkPt s bk t) dx dy dz fdh tdh s.tol)
-  | .xyz p x y z => do pure (linXYZ (← mkPt s bk p) x y z s.tol)
-  | .distance f t v fdh tdh => do pure (linDistance (← mkPt s bk f) (← mkPt s bk t) v fdh tdh s.tol)
-  | .height p v => do pure (linHeight (← mkPt s bk p) v)
-  | .hdiff f t v => do pure (linHeightDiff (← mkPt s bk f) (← mkPt s bk t) v)
-  | _ => none
+/-- the generated `Model::linearization(T*)` of the observation's class on the model points -/
+def linOne (s : St) (bk : Book String) (o : ObIn) : Option (LinOut Float) := do
+  let f ← Gama.Gen.G3Lin.byName o.kind
+  let pts ← o.names.mapM fun (r, n) => do pure (r, ← mkPt s bk n)
+  let P : Pts Float := fun r => (pts.lookup r).getD zeroPt
+  pure (evalLin P (f P o.o s.tol))
 
 /-- one pass of `update_observations` + the linearisation loop over `active_obs`;
     returns the book, the per-observation results and the new activity flags -/
@@ -207,8 +219,70 @@ def runAdjRt (s : St) : String :=
   | .ok [d] => "\n".intercalate (showAdj "rd" d ++ (AdjXml.writeAdj codec d).map showEv)
   | .ok ds => s!"rd count {ds.length}"
 
+def role? : String → Option Role
+  | "frm" => some .frm | "to" => some .to | "left" => some .left | "right" => some .right | "pt" => some .pt
+  | _ => none
+
+def parseGpt : List String → Option (Role × GPt Float)
+  | role :: rest => do
+    let r ← role? role
+    let fs ← floats? (rest.take 21)
+    let [sn, se, su, iN, iE, iU] := rest.drop 21 | none
+    match fs with
+    | [x, y, z, x0, y0, z0, b, l, h, g, db, dl, r11, r12, r13, r21, r22, r23, r31, r32, r33] =>
+      pure (r, { X := x, Y := y, Z := z, X0 := x0, Y0 := y0, Z0 := z0, B := b, L := l, H := h, geoid := g,
+                 dB := db, dL := dl, R := ⟨r11, r12, r13, r21, r22, r23, r31, r32, r33⟩,
+                 sN := ← pstate? sn, sE := ← pstate? se, sU := ← pstate? su,
+                 iN := ← iN.toNat?, iE := ← iE.toNat?, iU := ← iU.toNat? })
+    | _ => none
+  | [] => none
+
+/-- one direct `Model::linearization(T*)` on the points given by `gpt` lines -/
+def runLin (s : St) : List String → String
+  | ty :: rest =>
+    match Gama.Gen.G3Lin.byName (K := Float) ty, floats? rest with
+    | some f, some [v1, v2, v3, fdh, tdh, ldh, rdh, tol] =>
+      let P : Pts Float := fun r => (s.gpts.lookup r).getD zeroPt
+      let out := evalLin P (f P (gobs v1 v2 v3 fdh tdh ldh rdh) tol)
+      "\n".intercalate ((out.rows.zipIdx.map fun (r, j) => showRow (1 + j) r) ++
+        [s!"res rhs {out.rhs.length}" ++ String.join (out.rhs.map fun x => " " ++ showFloat x),
+         s!"res rej {if out.rejected then 1 else 0} {if out.rejected then 1 else 0}"])
+    | _, _ => "bad-op"
+  | [] => "bad-op"
+
+def kind? : String → Option G3Parser.Kind
+  | "distance" => some .dist | "zenith" => some .zenith | "azimuth" => some .azimuth | "vector" => some .vector
+  | "xyz" => some .xyz | "hdiff" => some .hdiff | "height" => some .height | "angle" => some .angle | _ => none
+def kindName : G3Parser.Kind → String
+  | .dist => "distance" | .zenith => "zenith" | .azimuth => "azimuth" | .vector => "vector"
+  | .xyz => "xyz" | .hdiff => "hdiff" | .height => "height" | .angle => "angle"
+def field? : String → Option G3Parser.Field
+  | "from-dh" => some .fromDh | "to-dh" => some .toDh | "left-dh" => some .leftDh | "right-dh" => some .rightDh
+  | _ => none
+
+def parseOpts : List String → Option (List (G3Parser.Field × Float))
+  | [] => some []
+  | f :: v :: t => do pure ((← field? f, ← float? v) :: (← parseOpts t))
+  | _ => none
+
+/-- the records given by `prec` lines through the parser model; the uninitialised members hold 7 -/
+def runParse (s : St) : String :=
+  match G3Parser.parse (K := Float) Gama.Gen.G3ParserSites.sites (fun _ => 7.0) s.precs with
+  | .error _ => "throw unknownTag"
+  | .ok bs => "\n".intercalate (bs.map fun b => s!"pb {kindName b.kind}" ++ String.join (b.dh.map fun (_, v) => " " ++ showFloat v))
+
 def step (s : St) (line : String) : St × String :=
   match tokens line with
+  | "prec" :: kind :: rest =>
+    match kind? kind, parseOpts rest with
+    | some k, some o => ({ s with precs := s.precs ++ [⟨k, (), o⟩] }, "")
+    | _, _ => (s, "bad-op")
+  | ["prun"] => (s, runParse s)
+  | "gpt" :: rest =>
+    match parseGpt rest with
+    | some g => ({ s with gpts := s.gpts ++ [g] }, "")
+    | none => (s, "bad-op")
+  | "lin" :: rest => (s, runLin s rest)
   | ["sd", a, b] =>
     match float? a, float? b with
     | some a, some b => ({ s with sd := a, tol := b }, "")
